@@ -23,7 +23,9 @@ package main
 import (
 	"fmt"
 	"maps"
+	"math/bits"
 	"os"
+	"regexp"
 	"slices"
 	"sort"
 	"strconv"
@@ -873,27 +875,89 @@ func lowerLeavesGrammar(c rune) bool {
 	return len(before) == 1 && before[0].Kind == "NAME" && !(len(after) == 1 && after[0].Kind == "NAME")
 }
 
+// classifyReparse names the CAUSE why the printed form of an expression is not read back. An input can show the shape of
+// several classes at once (a literal ending in a backslash AND consecutive numeric lookups), so the class is not taken
+// from which shapes occur but from which repair of the printed text makes it parse: each candidate class has a repair
+// (the backslash-ending literals get another last character; the runes that lower-casing took out of the grammar's
+// letters are replaced; a space is put between consecutive numeric lookups); the class is the first candidate whose
+// repair ALONE is enough, else the first of the smallest set of repairs that is enough. "" = no known cause.
 func classifyReparse(ti *treeInfo, printed string) string {
-	if ti.numAfterNum {
-		return "reparse:consecutive-numeric-dot-lookups"
+	parses := func(s string) bool { _, err := excellent.Parse(s, nil); return err == nil }
+	type cand struct {
+		class  string
+		repair func(string) string
 	}
+	var cands []cand
+	// known: a text value ending in a backslash, printed as ...\\", swallows what follows up to the next quote
+	var bsQuoted []string
 	for _, v := range ti.textValues {
 		if strings.HasSuffix(v, `\`) {
 			q := strconv.Quote(v)
 			if i := strings.Index(printed, q); i >= 0 && strings.Contains(printed[i+len(q):], `"`) {
-				return "roundtrip:text-literal-value-ends-in-backslash-before-later-quote"
+				bsQuoted = append(bsQuoted, q)
 			}
 		}
 	}
+	if len(bsQuoted) > 0 {
+		cands = append(cands, cand{"roundtrip:text-literal-value-ends-in-backslash-before-later-quote", func(s string) string {
+			for _, q := range bsQuoted {
+				s = strings.ReplaceAll(s, q, q[:len(q)-1]+`x"`)
+			}
+			return s
+		}})
+	}
+	// known: a name whose lower case is outside the grammar's letters
+	bad := map[rune]bool{}
 	for _, n := range ti.names {
 		for _, c := range n {
 			if lowerLeavesGrammar(c) {
-				return "roundtrip:name-lowercases-outside-grammar-letters"
+				bad[unicode.ToLower(c)] = true
+			}
+		}
+	}
+	if len(bad) > 0 {
+		cands = append(cands, cand{"roundtrip:name-lowercases-outside-grammar-letters", func(s string) string {
+			return strings.Map(func(c rune) rune {
+				if bad[c] {
+					return 'x'
+				}
+				return c
+			}, s)
+		}})
+	}
+	// repaired (205f8a3): a numeric lookup directly after a numeric lookup read back as one decimal
+	if ti.numAfterNum {
+		cands = append(cands, cand{"reparse:consecutive-numeric-dot-lookups", func(s string) string {
+			for prev := ""; prev != s; {
+				prev, s = s, numAfterNumRe.ReplaceAllString(s, "$1 $2")
+			}
+			return s
+		}})
+	}
+	// the smallest set of repairs that is enough, in the order of the candidates
+	for size := 1; size <= len(cands); size++ {
+		for mask := 1; mask < 1<<len(cands); mask++ {
+			if bits.OnesCount(uint(mask)) != size {
+				continue
+			}
+			s, first := printed, ""
+			for i, c := range cands {
+				if mask&(1<<i) != 0 {
+					s = c.repair(s)
+					if first == "" {
+						first = c.class
+					}
+				}
+			}
+			if parses(s) {
+				return first
 			}
 		}
 	}
 	return ""
 }
+
+var numAfterNumRe = regexp.MustCompile(`(\.[0-9]+)(\.[0-9])`)
 
 // rescaledUnderLargePower: the source has a number literal that is printed with another scale (trailing or leading
 // zeros) and a power with a literal exponent of at least 100
@@ -1098,6 +1162,9 @@ func main() {
 		`foreach(array("a","b"), (Item) => upper(Item))`, `filter(array(1,2,3), (X) => X > 1)`, `foreach(array(1,2), (ITEM, Other) => ITEM & Other, "z")`,
 		`foreach(array(1,2), (Outer) => foreach(array(3), (Inner) => Outer * Inner))`, `0.10 ^ 60000 = 0`, `1.50 ^ 1000`, `2.0 ^ 100`, `1.10 * 1.10`, `0.10000 ^ 128 > 1`,
 		strconv.Quote(strings.Repeat("a", 129)), strconv.Quote(strings.Repeat("é", 130)) + ` & "x"`, `upper(` + strconv.Quote(strings.Repeat("ab ", 400)) + `)`,
+		// shapes of TWO classes in one input: the cause is the backslash-ending literal (known), not the numeric lookups
+		"TEXT  ( foreach(split(\"a b c\", \" \"),  (\nVal_1 \r\n )=>(Val_1)) , \"\\134\"\t<= \"\\x4\"  *\"a\" ^ \r\n 3,10 \r\n ). 1 .1()",
+		`text("\\" <= "b", 1).1 .1()`, `Ꭰ.1 .2 & "a\\" & "b"`,
 		`null.x`, `true(1)`, `1(2)`, `"a"(1)`, `"a".x`, `1.x`, `-x.y`, `-(x).y`, `- x ^ 2 * 3`, `a*b/c*d`, `a/(b*c)`, `a^-1`, `1 - -1`, `1--1`}
 	rcorp := r.Fork("corpus-ctx")
 	for _, c := range corpus {
